@@ -27,7 +27,8 @@ NOT_SLOTS = {"_value", "_expr", "_tasks", "_hash", "_manager", "_op_str"}
 def fresh_world():
     import xdeps
     data = {"a": 4, "b": 9, "i": 1, "k": "p", "n": {"x": 2, "y": 6}, "l": [5, 8, 13],
-            "o": T.PObj(p=3, q=11), "fn": _inc, "out": None, "p": 17, "q": 23, -1: 31, -2: 37, "g": [[1, 2], [3, 4]]}
+            "o": T.PObj(p=3, q=11), "fn": _inc, "out": None, "p": 17, "q": 23, -1: 31, -2: 37, "g": [[1, 2], [3, 4]],
+            "fn0": _five, "src": _Src()}
     m = xdeps.Manager()
     s = m.ref(data, "s")
     f = m.ref(T.Funcs(), "f")
@@ -36,6 +37,19 @@ def fresh_world():
 
 def _inc(v, w=0):
     return v + 1 + w
+
+
+def _five():
+    return 5
+
+
+class _Src:
+    def get(self):
+        return 9
+
+
+def _mk(v):
+    return lambda: v * 3
 
 
 def _grid(v):
@@ -116,6 +130,22 @@ def reachable(obj, refs, out, slots_seen):
             reachable(x, refs, out, slots_seen)
 
 
+def collect_nodes(obj, refs, out):
+    """expression objects reachable through the slots, parent first"""
+    if isinstance(obj, refs.BaseRef):
+        if isinstance(obj, refs.Ref):
+            return
+        out.append(obj)
+        for name in slot_names(obj):
+            collect_nodes(getattr(obj, name), refs, out)
+    elif isinstance(obj, (tuple, list)):
+        for x in obj:
+            collect_nodes(x, refs, out)
+    elif isinstance(obj, dict):
+        for x in obj.values():
+            collect_nodes(x, refs, out)
+
+
 def constructors(refs, s, f, m):
     """class -> list of (slot label, builder(filler) -> instance)"""
     table = {}
@@ -148,7 +178,11 @@ def constructors(refs, s, f, m):
                           ("_kwargs[k]", lambda x, c=cls: c(f.pick, (2,), {"k": x})),
                           ("_kwargs(tuple form)", lambda x, c=cls: c(f.pick, (2,), (("k", x),))),
                           ("_func(ref to a stored callable)", lambda x, c=cls: c(s["fn"], (x,), ())),
-                          ("_func(plain callable)", lambda x, c=cls: c(_inc, (x,), {"w": x}))]
+                          ("_func(plain callable)", lambda x, c=cls: c(_inc, (x,), {"w": x})),
+                          # calls WITHOUT any argument: the called function itself is the only thing read
+                          ("_func(ref callee, no arguments)", lambda x, c=cls: c(s["fn0"], (), ())),
+                          ("_func(bound method of a located object, no arguments)", lambda x, c=cls: c(s["src"].get, (), ())),
+                          ("_func(curried: result of a call, no arguments)", lambda x, c=cls: c(c(_mk, (x,), ()), (), ()))]
         elif cls is refs.ItemRef:
             table[cls] = [("_key", lambda x, c=cls: c(s["l"], refs.ModExpr(x, 3), m)),
                           ("_key(top-level owner)", lambda x, c=cls: c(s, refs.CallRef(_pq, (x,), ()), m)),
@@ -242,6 +276,27 @@ def run_all(_chunk=None):
                 if got != want:
                     report(f"dependencies differ from the locations occurring in the expression: {label}", es,
                            {"missing": sorted(map(str, want - got)), "extra": sorted(map(str, got - want))})
+                # every sub-expression OBJECT, queried on its own AFTER the enclosing expression was queried, reports its own
+                # locations (a node must not remember what an earlier, differently nested query contributed), and the enclosing
+                # expression answers the same when asked again
+                nodes = []
+                collect_nodes(e, refs, nodes)
+                for sub in nodes[1:]:
+                    want_s = set()
+                    reachable(sub, refs, want_s, set())
+                    try:
+                        got_s = sub._get_dependencies()
+                    except Exception as ex:  # noqa
+                        report(f"_get_dependencies of a sub-expression raised {type(ex).__name__}: {label}", str(sub))
+                        break
+                    if got_s != want_s:
+                        report(f"a sub-expression queried after its parent reports {sorted(map(str, got_s))}, it reads "
+                               f"{sorted(map(str, want_s))}: {label}", str(sub))
+                        break
+                again = e._get_dependencies()
+                if again != want:
+                    report(f"a second query of the same expression answers differently: {label}", es,
+                           {"first": sorted(map(str, got)), "second": sorted(map(str, again))})
                 if len(samples) < 3 and fname.count("(") == 2:
                     samples.append({"case": label, "expr": es, "dependencies": sorted(map(str, got))})
                 # ---- soundness by perturbation (only meaningful when the expression evaluates)
